@@ -202,7 +202,8 @@ def cause_cases(draw):
             ops.append(('check',))
             ops += draw(st.lists(op, min_size=0, max_size=3))
     return {'kind': 'causes', 'runtime': r, 'ops': [list(o) for o in ops],
-            'late': draw(st.integers(0, 3)), 'shell': int(draw(st.integers(0, 9)) == 0)}
+            'late': draw(st.integers(0, 3)), 'shell': int(draw(st.integers(0, 9)) == 0),
+            'early_finalize': draw(st.integers(0, 2)) == 0}
 
 
 SYMBOLS = {'R': [['tick', 60], ['check']],      # runtime (1 min) reached
@@ -220,6 +221,9 @@ def cause_enum(tier):
                     ops.extend(SYMBOLS[sym])
                 yield {'kind': 'causes', 'runtime': 1, 'ops': ops, 'late': late,
                        'shell': int(n <= 2 and late == 0), 'enum': ''.join(seq)}
+                if n <= 2 and late == 0:
+                    yield {'kind': 'causes', 'runtime': 1, 'ops': ops, 'late': late, 'shell': 0,
+                           'enum': ''.join(seq), 'early_finalize': True}
 
 
 def progress_enum(tier):
@@ -477,6 +481,24 @@ def run_causes(case):
                                 url=sess._reg['bridges.control_pubsub.addr_pub'])
         n_after_term = 0
 
+        # the work loop thread runs the finalizers as soon as it sees the termination flag - that
+        # can be while the thread which called stop() is still inside it (closing the session)
+        fin = {'done': False, 'log0': None, 'exc': None}
+        if case.get('early_finalize'):
+            real_close = agent._session.close
+
+            def close_with_work_loop(*a, **k):
+                if agent._term.is_set() and not fin['done']:
+                    fin['done'] = True
+                    fin['log0'] = len(sess.net.log)
+                    try:
+                        agent._finalize()
+                    except Exception as e:    # noqa
+                        fin['exc'] = e
+                return real_close(*a, **k)
+            agent._session.close = close_with_work_loop
+            res.label('b:finalizers_run_while_stop_is_in_progress')
+
         for op in ops:
             if agent._term.is_set():
                 if n_after_term >= late:
@@ -558,7 +580,12 @@ def run_causes(case):
             causes.add('error')         # the work loop ends for no stated reason
         log0 = len(sess.net.log)
         try:
-            agent._finalize()
+            if fin['done']:
+                log0 = fin['log0']
+                if fin['exc'] is not None:
+                    raise fin['exc']
+            else:
+                agent._finalize()
         except Exception as e:                # noqa
             res.fail(exc_sig('finalize_raised', e), repr(e))
             return res
